@@ -396,6 +396,27 @@ func g7DerivedNames() []BashCase {
 		fn("add", []Param{{"n", TInt}}, []Type{TInt}, set("add_n", bin("+", vr("add_n"), il(1))), ret(bin("+", vr("n"), vr("n_add")))),
 		def("got", call("add", il(1))), pr(vr("got"), vr("add_n"), vr("n_add")),
 	})})
+	// a parameter that is never used may be called _ : it still takes its place in the argument list
+	cases = append(cases, BashCase{Key: "G7/underscore-parameters", Prog: SingleFile([]Stmt{
+		fn("pick", []Param{{"_", TInt}, {"x", TInt}}, []Type{TInt}, ret(vr("x"))),
+		fn("mid", []Param{{"a", TInt}, {"_", TString}, {"c", TInt}}, []Type{TInt}, ret(bin("+", bin("*", vr("a"), il(10)), vr("c")))),
+		fn("last", []Param{{"s", TString}, {"_", TBool}}, []Type{TString}, ret(bin("+", vr("s"), sl("!")))),
+		fn("only", []Param{{"_", TSliceInt}}, []Type{TInt}, ret(il(9))),
+		pr(call("pick", il(1), il(2)), call("mid", il(3), sl("s"), il(4)), call("last", sl("w"), bl(true)), call("only", SliceLit{TInt, []Expr{il(1)}})),
+		pr(call("pick", call("pick", il(5), il(6)), call("mid", il(7), sl(""), il(8)))),
+	})})
+	// a short definition inside a function whose names mix a global with a new local: the global is written in
+	// place, the local belongs to the frame (values from a list, from a call, in both orders)
+	cases = append(cases, BashCase{Key: "G7/partial-definition-global-and-local", Prog: SingleFile([]Stmt{
+		def("balance", il(100)), def("label", sl("start")),
+		fn("two", []Param{{"n", TInt}}, []Type{TInt, TBool}, ret(bin("+", vr("n"), il(1)), cmp(">", vr("n"), il(100)))),
+		fn("named", nil, []Type{TBool, TString}, ret(bl(true), sl("named"))),
+		fn("viaCall", nil, nil, VarDecl{Names: []string{"balance", "ok"}, Short: true, Values: []Expr{call("two", vr("balance"))}}, pr(sl("viaCall"), vr("balance"), vr("ok"))),
+		fn("viaCallLocalFirst", nil, nil, VarDecl{Names: []string{"fine", "label"}, Short: true, Values: []Expr{call("named")}}, pr(sl("localFirst"), vr("fine"), vr("label"))),
+		fn("viaList", nil, nil, VarDecl{Names: []string{"balance", "extra"}, Short: true, Values: []Expr{il(7), il(8)}}, pr(sl("viaList"), vr("balance"), vr("extra"))),
+		fn("viaListLocalFirst", nil, nil, VarDecl{Names: []string{"extra", "balance"}, Short: true, Values: []Expr{il(1), bin("+", vr("balance"), il(1))}}, pr(sl("listLocalFirst"), vr("extra"), vr("balance"))),
+		callS("viaCall"), pr(vr("balance")), callS("viaCall"), pr(vr("balance")), callS("viaCallLocalFirst"), pr(vr("label")), callS("viaList"), pr(vr("balance")), callS("viaListLocalFirst"), pr(vr("balance")),
+	})})
 	cases = append(cases, BashCase{Key: "G7/empty-string-arguments", Prog: SingleFile([]Stmt{
 		fn("tag", []Param{{"prefix", TString}, {"name", TString}, {"suffix", TString}}, []Type{TString}, ret(bin("+", bin("+", bin("+", bin("+", sl("<"), vr("prefix")), sl("|")), vr("name")), bin("+", bin("+", sl("|"), vr("suffix")), sl(">"))))),
 		fn("mixed", []Param{{"a", TString}, {"n", TInt}, {"b", TString}, {"f", TBool}}, nil, pr(framed(vr("a")), vr("n"), framed(vr("b")), vr("f"))),
